@@ -32,11 +32,10 @@ Definition wrapper_reset_ok (members unload unload_w call_start upd listc calls 
 
 (* members added on 2026-10-01 when the member parser learnt elaborated type specifiers (`class copier copy_solution;`):
    basicCallback   — user-installed callback (SetBasicCallback): a survivor by design;
-   copy_*          — pending COPY requests: consumed (copier_clear) by copy_entities at the end of every completed simulation, the
-                     database self-test run inside LoadDatabase included (checked dynamically: a request left by an aborted run is
-                     gone after the load);
+   copy_*          — (were excused here on a wrong dynamic check; a pending COPY of an aborted run survived the load: repaired in
+                     9f4aeed9, clean_up now clears them and they are off this list);
    save            — SAVE flags: reset at the start of every read_input. *)
-Definition reviewed_not_reset : list string := ["basicCallback"; "copy_exchange"; "copy_gas_phase"; "copy_kinetics"; "copy_mix"; "copy_pp_assemblage"; "copy_pressure"; "copy_reaction"; "copy_solution"; "copy_ss_assemblage"; "copy_surface"; "copy_temperature"; "save"; "Dispersion_mix_map"; "Rxn_exchange_mix_map"; "Rxn_gas_phase_mix_map"; "Rxn_kinetics_mix_map"; "Rxn_new_exchange"; "Rxn_new_gas_phase"; "Rxn_new_kinetics"; "Rxn_new_mix"; "Rxn_new_pp_assemblage"; "Rxn_new_pressure"; "Rxn_new_reaction"; "Rxn_new_solution"; "Rxn_new_ss_assemblage"; "Rxn_new_surface"; "Rxn_new_temperature"; "Rxn_pp_assemblage_mix_map"; "Rxn_solution_mix_map"; "Rxn_ss_assemblage_mix_map"; "Rxn_surface_mix_map"; "SC"; "anion_list"; "array1"; "back_eq"; "bad"; "bdot_llnl"; "cation_list"; "charge_group_map"; "col_back"; "col_name"; "cu"; "default_pe_x"; "delete_info"; "delta"; "delta1"; "delta2"; "delta3"; "delta_save"; "description_x"; "dump_file_name_cpp"; "dump_info"; "gas_unknowns"; "gfw_map"; "good"; "ineq_array"; "inv_cu"; "inv_delta1"; "inv_is"; "inv_iu"; "inv_res"; "inv_zero"; "inverse_heading_names"; "ioInstance"; "ion_list"; "is"; "iu"; "kgw_kgs"; "max_delta"; "max_strings"; "min_delta"; "minimal"; "mixrun"; "my_array"; "neutral_list"; "normal"; "param_list"; "rate_p"; "res"; "res_arg"; "residual"; "rho_0_sat"; "row_back"; "row_name"; "s_diff_layer"; "s_list"; "s_x"; "scratch"; "screen_string"; "sit_aqueous_unknowns"; "solution_mass_x"; "solution_volume_x"; "status_string"; "strings_map"; "sum_delta"; "sum_jacob0"; "sum_jacob1"; "sum_jacob2"; "sum_mb1"; "sum_mb2"; "sum_species_map"; "sum_species_map_db"; "sys"; "tally_table"; "units_x"; "unnumbered_solutions"; "user_database"; "x_arg"; "zero"].
+Definition reviewed_not_reset : list string := ["basicCallback"; "save"; "Rxn_new_exchange"; "Rxn_new_gas_phase"; "Rxn_new_kinetics"; "Rxn_new_mix"; "Rxn_new_pp_assemblage"; "Rxn_new_pressure"; "Rxn_new_reaction"; "Rxn_new_solution"; "Rxn_new_ss_assemblage"; "Rxn_new_surface"; "Rxn_new_temperature"; "SC"; "anion_list"; "array1"; "back_eq"; "bad"; "bdot_llnl"; "cation_list"; "charge_group_map"; "col_back"; "col_name"; "cu"; "default_pe_x"; "delete_info"; "delta"; "delta1"; "delta2"; "delta3"; "delta_save"; "description_x"; "dump_file_name_cpp"; "dump_info"; "gas_unknowns"; "gfw_map"; "good"; "ineq_array"; "inv_cu"; "inv_delta1"; "inv_is"; "inv_iu"; "inv_res"; "inv_zero"; "inverse_heading_names"; "ioInstance"; "ion_list"; "is"; "iu"; "kgw_kgs"; "max_delta"; "max_strings"; "min_delta"; "minimal"; "mixrun"; "my_array"; "neutral_list"; "normal"; "param_list"; "rate_p"; "res"; "res_arg"; "residual"; "rho_0_sat"; "row_back"; "row_name"; "s_diff_layer"; "s_list"; "s_x"; "scratch"; "screen_string"; "sit_aqueous_unknowns"; "solution_mass_x"; "solution_volume_x"; "status_string"; "strings_map"; "sum_delta"; "sum_jacob0"; "sum_jacob1"; "sum_jacob2"; "sum_mb1"; "sum_mb2"; "sum_species_map"; "sum_species_map_db"; "sys"; "tally_table"; "units_x"; "unnumbered_solutions"; "user_database"; "x_arg"; "zero"].
 
 Definition phreeqc_reset_ok (not_reset : list string) : bool := forallb (fun m => mem m reviewed_not_reset) not_reset.
 
